@@ -8,7 +8,7 @@ M = "harness.c03"
 DAY_US = 86400 * 10 ** 6
 
 
-def h_add(kind, y, years, absf, wd, op, md=None):
+def h_add(kind, y, years, absf, wd, op, md=None, mrange=11):
     """kind: 'date' | 'datetime'.  y: operand year (cell).  years: relative years (cell).  absf: tuple of absolute
     field names given.  wd: None | 'pos' | 'neg' (weekday with symbolic index and n).  op: 'add' | 'radd' | 'sub'."""
     import datetime
@@ -38,7 +38,7 @@ def h_add(kind, y, years, absf, wd, op, md=None):
             m, d = md
         ctx.assume(S.valid_ymd(y, m, d))
         months, days, leapdays = kw["months"], kw["days"], kw["leapdays"]
-        ctx.assume(S.within(months, -11, 11))
+        ctx.assume(S.within(months, -mrange, mrange))       # beyond 11 the constructor carries whole years out of the months
         ctx.assume(S.within(days, -800, 800))
         ctx.assume(S.within(leapdays, -1, 1))
         sod = us = 0
@@ -89,9 +89,14 @@ def h_add(kind, y, years, absf, wd, op, md=None):
         sg = -1 if neg else 1                           # dt - rd == dt + (-rd): relative parts negated, absolute kept
         Y0 = ab.get("year", y) + sg * years
         M0 = S.add(ab.get("month", m), S.mulc(months, sg))
-        up, down = S.lt(12, M0), S.lt(M0, 1)
-        Y0 = S.add(Y0, S.b2i(up), S.mulc(S.b2i(down), -1))
-        M0 = S.add(M0, S.ite(up, -12, 0), S.ite(down, 12, 0))
+        if mrange <= 11:
+            up, down = S.lt(12, M0), S.lt(M0, 1)
+            Y0 = S.add(Y0, S.b2i(up), S.mulc(S.b2i(down), -1))
+            M0 = S.add(M0, S.ite(up, -12, 0), S.ite(down, 12, 0))
+        else:                 # any number of whole years carried by the month total
+            q = ctx.split(S.div(S.sub(M0, 1), 12), range(-(mrange // 12) - 2, mrange // 12 + 3))     # whole years carried: one path each
+            Y0 = S.add(Y0, q)
+            M0 = S.sub(M0, 12 * q)
         dim = S.days_in_month(Y0, M0)
         dd = ab.get("day", d)
         D0 = S.ite(S.lt(dim, dd), dim, dd)
@@ -134,8 +139,10 @@ def cells(tier):
     q = tier == "quick"
     cs = []
 
-    def add(kind, y, years, absf, wd, op, budget, md=None):
+    def add(kind, y, years, absf, wd, op, budget, md=None, mrange=None):
         p = dict(kind=kind, y=y, years=years, absf=list(absf), wd=wd, op=op)
+        if mrange:
+            p["mrange"] = mrange
         if md:
             p["md"] = list(md)
         cs.append(Cell(M, "h_add", p, budget_s=budget, per_path_s=30))
@@ -145,6 +152,8 @@ def cells(tier):
                 add("date", 2024, 0, absf, wd, "add", 200)
         add("date", 2024, 1, (), None, "add", 200)
         add("date", 1900, 0, ("day",), None, "add", 200)
+        add("date", 2024, 1, (), None, "add", 200, mrange=40)        # relative years together with months that carry
+        add("date", 2024, -2, ("month",), None, "sub", 200, mrange=40)
         add("date", 2024, 0, (), None, "sub", 200)
         add("date", 2024, 0, ("reltime",), None, "add", 250, md=(1, 31))
         add("date", 2024, 0, ("hour", "minute", "second", "microsecond"), None, "add", 200, md=(2, 29))
@@ -166,12 +175,16 @@ def cells(tier):
                             if op != "add" and (y != 2024 or years != 0):
                                 continue
                             add(kind, y, years, absf, wd, op, 1200)
+    for years in (-3, -1, 1, 2):
+        for absf in ((), ("month",), ("day",)):
+            for op in ("add", "sub", "radd"):
+                add("date", 2024, years, absf, None, op, 1200, mrange=60)
     return cs
 
 
 ASSUMPTIONS = [
     "operand year and the relative `years` are cell parameters (representative leap / century / boundary years); month, day, time of day, "
-    "relative months (-11..11), days (-800..800), leapdays (-1..1), normalised relative time fields, absolute fields over their legal ranges "
+    "relative months (-11..11; -40..40 / -60..60 in the cells that combine relative years with months that carry), days (-800..800), leapdays (-1..1), normalised relative time fields, absolute fields over their legal ranges "
     "(day up to 31 so clipping is exercised) and the weekday index/n (1..5 resp. -5..-1) are solver variables",
     "stored relative fields are assumed normalised (what C16 proves every constructor establishes)",
     "`calendar` as seen from dateutil.relativedelta = fork-free monthrange/isleap; CrossHair datetime model + calendar stubs; witnesses replayed natively",
